@@ -524,6 +524,9 @@ func (e *cenv) exec(m map[string]string) string {
 		if m["via"] == "run" && !fb.present {
 			return e.classify(e.c.Run(caller, runFn), run, fb)
 		}
+		if m["via"] == "go" {
+			return e.classify(e.c.Go(caller, runFn, fbFn), run, fb)
+		}
 		return e.classify(e.c.Execute(caller, runFn, fbFn), run, fb)
 	}()
 	if runCalls > 0 && run.cancel && after == "-" {
@@ -684,12 +687,18 @@ func (circuitSuite) Gen(r *rand.Rand, i int) Case {
 				tag("cancel-during-run")
 			}
 			via := ""
+			fc := r.Intn(10) == 0
 			if fb == "none" && r.Intn(2) == 0 {
 				via = " via=run" // Run(ctx, f) must behave as Execute(ctx, f, nil): the model knows only the latter
 				tag("via-run")
+			} else if !rc && !fc && ctx != "cancelled" && !strings.HasPrefix(ctx, "expired") && r.Intn(3) == 0 {
+				// Go(ctx, f, fb) must behave as Execute when the caller's context never ends during the call (when it
+				// does, Go may return early: that is C18's subject and the gowrap suite's)
+				via = " via=go"
+				tag("via-go")
 			}
 			c.Ops = append(c.Ops, fmt.Sprintf("exec ctx=%s run=%s radv=%d rcancel=%s fb=%s fadv=%d fcancel=%s ans=%d%d%d%d%s",
-				ctx, run, radv, b01(rc), fb, r.Int63n(5), b01(r.Intn(10) == 0), r.Intn(2), r.Intn(2)*r.Intn(2)*r.Intn(2), r.Intn(2), r.Intn(2), via))
+				ctx, run, radv, b01(rc), fb, r.Int63n(5), b01(fc), r.Intn(2), r.Intn(2)*r.Intn(2)*r.Intn(2), r.Intn(2), r.Intn(2), via))
 		case x < 76:
 			c.Ops = append(c.Ops, "open")
 			tag("manual-open")
